@@ -408,6 +408,7 @@ type Held struct {
 	Mon    *Monitor
 	Read   bool
 	Root   *types.Named
+	Borrowed bool // held by the goroutine that started this one (ghost borrows): protects against other threads' adds only
 }
 
 type State struct {
@@ -419,6 +420,7 @@ type State struct {
 	FreshRefs map[string]bool
 	FreshTypes map[string]*types.Named // struct type of fresh references (for object invariants)
 	Escaped   []escapedRef // objects handed to code outside the function through a channel: their receiver may edit them at any time
+	Lent      []string // locks lent to goroutines this function started (ghost borrows)
 	Owned     []*Term // channels this goroutine alone may close (ghost owns): exempt from interference, also after being shared
 	Panicking bool
 	PanicVal  *Val
@@ -465,6 +467,7 @@ func (s *State) Clone() *State {
 		FreshList: s.FreshList[:len(s.FreshList):len(s.FreshList)],
 		FreshTypes: s.FreshTypes,
 		Owned:     s.Owned,
+		Lent:      s.Lent,
 		Escaped:   s.Escaped,
 		LiveIters: s.LiveIters[:len(s.LiveIters):len(s.LiveIters)],
 	}
